@@ -340,5 +340,11 @@ def r10_media_type_predicates(chk: Check) -> None:
         chk.undecided("C04.R10", ij, "is_json: application/json or application/*+json", f"shape not recognised: {body[:80]}", ij.loc())
 
 
+def r11_header_keywords(chk: Check) -> None:
+    from .c01 import r9_keyword_whitelist_complete
+
+    r9_keyword_whitelist_complete(chk, "C04.R11", "response_headers_conformance wraps each documented header in OpenAPI20Parameter / OpenAPI30Parameter and validates against as_json_schema(), which drops every key outside this list - a header that violates only the dropped keyword is passed as conforming; ")
+
+
 def rules(tier: str) -> list:  # type: ignore[type-arg]
-    return [r1_status_lookup, r2_media_type, r3_collected_raise, r4_run_checks, r5_registered, r6_copy_discipline, r7_total_status_expansion, r8_forbid_each, r9_memo, r10_media_type_predicates]
+    return [r1_status_lookup, r2_media_type, r3_collected_raise, r4_run_checks, r5_registered, r6_copy_discipline, r7_total_status_expansion, r8_forbid_each, r9_memo, r10_media_type_predicates, r11_header_keywords]
